@@ -3,7 +3,7 @@ import itertools, time
 import z3
 from ..driver import load_mir, REPO, parts
 from ..layout import Layouts
-from ..vm import VM, Machine, Struct, Enum, Seq, Ref, SliceRef, Str, Opaque, UNIT, NONE, SOME, OK, ERR, ret, VMError, Unmodelled
+from ..vm import BoundExceeded, VM, Machine, Struct, Enum, Seq, Ref, SliceRef, Str, Opaque, UNIT, NONE, SOME, OK, ERR, ret, VMError, Unmodelled
 from ..alg import RealAlg, Fl
 from ..mathenv import install_misc
 from ..intrinsics import deref_val
@@ -173,7 +173,11 @@ def csv_index(rep, mir, L):
             m = Machine()
             coords = Seq([Seq([Str(str(i + 1)) for i in range(sz)]) for sz in shape])
             cc = m.alloc(coords); sc = m.alloc(Seq(list(shape)))
-            outs = vm.run(fn, [SliceRef(cc, (), 0, rank), SliceRef(sc, (), 0, rank)], m); n += 1; rep.absorb_vm(vm)
+            try: outs = vm.run(fn, [SliceRef(cc, (), 0, rank), SliceRef(sc, (), 0, rank)], m)
+            except BoundExceeded as e:
+                # concrete inputs, recursion / loop deeper than any shape of rank <= 3 needs: the enumeration does not terminate
+                bad.append(('does not terminate (%s beyond the bound on a concrete shape)' % e, shape, '')); continue
+            n += 1; rep.absorb_vm(vm)
             if len(outs) != 1 or outs[0][1] != 'ret': bad.append(('panics', shape, str(outs[0][2])[:200])); continue
             names, idxs = outs[0][2].f
             names = [x.s for x in names.items]; idxs = list(idxs.items)
@@ -258,6 +262,37 @@ def csv_special_values(rep, mir, L):
                 if text in want: sol.add(z3.Not(want[text]))
                 else: sol.add(z3.Or(isnan, ispinf, isninf))          # anything else (the numeric formatter) must only see finite values
             if sol.check() != z3.unsat: bad.append((variant, 'prints %r for a value it does not denote' % (text if text is not None else 'a formatted number'), str(sol.model())[:120]))
+    # the remaining cell kinds: integers print their own value, booleans 1 / 0, strings themselves; a vector cell prints its first element, an empty one NA
+    for variant in ('ScalarU64', 'ScalarI64', 'ScalarString', 'U64', 'I64', 'Bool', 'Strings'):
+        for empty in ((False, True) if not variant.startswith('Scalar') else (False,)):
+            A = FP64Alg(); vm = VM(mir, A); install_misc(vm)
+            vm.add_model(r'^<str as ToString>::to_string$|^<&str as ToString>::to_string$|^<str as ToOwned>::to_owned$|^<std::string::String as Clone>::clone$|^<String as Clone>::clone$', lambda vm, m, c, a: ret(m, deref_val(vm, m, a[0])))
+            vm.add_model(r'^<(u64|i64|usize) as ToString>::to_string$', lambda vm, m, c, a: ret(m, Struct((deref_val(vm, m, a[0]),), 'IntText')))
+            en = vm.enums['Value']
+            if variant in ('ScalarU64', 'ScalarI64', 'U64', 'I64'): first, other = z3.Int('x'), z3.Int('x_other')
+            elif variant == 'Bool': first, other = z3.Bool('b'), z3.Bool('b_other')
+            else: first, other = Str('first string'), Str('other string')
+            payload = first if variant.startswith('Scalar') else Seq([] if empty else [first, other])
+            val = Enum(en.index(variant), variant, (payload,), 'Value')
+            m = Machine(); m.pc += [z3.Int('x') >= 0, z3.Int('x') < 2 ** 63]
+            st = L.make('CsvChainStorage', {f: (3 if f == 'precision' else Opaque(f)) for f in L.fields('CsvChainStorage')})
+            try: outs = vm.run(fn, [Ref(m.alloc(st)), Ref(m.alloc(val))], m)
+            except Exception as e:
+                rep.unknown('C14.f format_value %s' % variant, '%s: %s' % (type(e).__name__, str(e)[:200])); continue
+            n += len(outs); rep.absorb_vm(vm)
+            for (m2, k, v) in outs:
+                if k != 'ret': bad.append((variant, 'format_value panics', str(v)[:100])); continue
+                if empty:
+                    if not (isinstance(v, Str) and v.s == 'NA'): bad.append((variant, 'an empty vector cell does not print NA', str(v)[:60]))
+                elif variant in ('ScalarU64', 'ScalarI64', 'U64', 'I64'):
+                    if not (isinstance(v, Struct) and v.ty == 'IntText' and z3.is_expr(v.f[0]) and v.f[0].eq(first)): bad.append((variant, 'does not print the (first) integer of the cell', str(v)[:60]))
+                elif variant == 'Bool':
+                    sol = z3.Solver(); sol.add(*m2.pc)
+                    if not (isinstance(v, Str) and v.s in ('1', '0')): bad.append((variant, 'a boolean cell prints neither 1 nor 0', str(v)[:60])); continue
+                    sol.add(first != (v.s == '1'))
+                    if sol.check() != z3.unsat: bad.append((variant, 'prints %s for the opposite boolean' % v.s, ''))
+                else:
+                    if not (isinstance(v, Str) and v.s == first.s): bad.append((variant, 'does not print the (first) string of the cell', str(v)[:60]))
     rep.paths += n
     if bad: rep.violated('C14.f CSV special values', 'csv.special', 'CsvChainStorage::format_value: %s' % (bad[0],), model={'problems': [str(b)[:200] for b in bad[:6]]})
-    elif n: rep.holds('C14.f CsvChainStorage::format_value: NaN -> NA, +inf -> Inf, -inf -> -Inf for f64 and f32 cells (scalar and first vector element), the numeric formatter only sees finite values, booleans print 1 / 0 (%d paths)' % n)
+    elif n: rep.holds('C14.f CsvChainStorage::format_value: NaN -> NA, +inf -> Inf, -inf -> -Inf for f64 and f32 cells (scalar and first vector element), the numeric formatter only sees finite values; integer, boolean and string cells print their own (first) value, empty vector cells NA; booleans print 1 / 0 (%d paths)' % n)
